@@ -93,8 +93,10 @@ def run(chk):
             grp = list(arg[-1])
     if grp is None:
         raise AnalysisError('_split_offset: capture group 1 not found in %r' % pat)
-    uses_g1 = any(isinstance(n, ast.Subscript) and norm(n) == 'offset.groups()[0]' for n in own_nodes(so.node)) or \
-        any(norm(n) == 'offset.group(1)' for n in own_nodes(so.node) if isinstance(n, ast.Call))
+    mvars = {t.id for n in own_nodes(so.node) if isinstance(n, ast.Assign) and isinstance(n.value, ast.Call) and
+             norm(n.value.func) in ('re.search', 're.match') for t in n.targets if isinstance(t, ast.Name)}
+    uses_g1 = any(isinstance(n, ast.Subscript) and norm(n) in {'%s.groups()[0]' % v for v in mvars} for n in own_nodes(so.node)) or \
+        any(norm(n) in {'%s.group(1)' % v for v in mvars} for n in own_nodes(so.node) if isinstance(n, ast.Call))
     if not uses_g1:
         raise AnalysisError('_split_offset no longer returns capture group 1')
     offsets = sorted(set(enum_regex(grp)))
@@ -213,8 +215,20 @@ def run(chk):
                key='C13-F|%s|%s' % (clsname, ','.join(miss)))
     gdi = ix.func('utils.get_datetime_info')
     slices = {norm(n) for n in own_nodes(gdi.node) if isinstance(n, ast.Subscript) and isinstance(n.slice, ast.Slice)}
-    fmtcat = any(isinstance(n, ast.Assign) and norm(n.targets[0]) == 'fmt' and "'{0}{1}'.format(date_format, timestamp_form)" == norm(n.value)
-                 for n in own_nodes(gdi.node))
+    from .pat import concat_parts, inline_locals
+    # the format handed to strptime / returned is <date format><time format>, in this order, nothing in between
+    dvar = {norm(t) for n in own_nodes(gdi.node) if isinstance(n, ast.Assign) and isinstance(n.value, ast.Call) and
+            norm(n.value.func) == '_get_date_format' for t in n.targets}
+    tvar = set()
+    for n in own_nodes(gdi.node):
+        if isinstance(n, ast.Assign) and isinstance(n.value, ast.Call) and norm(n.value.func) == '_get_timestamp_format' and \
+                isinstance(n.targets[0], ast.Tuple):
+            tvar.add(norm(n.targets[0].elts[0]))
+    fmtcat = False
+    for n in own_nodes(gdi.node):
+        cp = concat_parts(n) if isinstance(n, (ast.JoinedStr, ast.BinOp, ast.Call)) else None
+        if cp and len(cp) == 2 and norm(cp[0]) in dvar and norm(cp[1]) in tvar:
+            fmtcat = True
     empty_ok = any(isinstance(n, ast.Assign) and isinstance(n.value, ast.Tuple) and len(n.value.elts) == 2 and
                    isinstance(n.value.elts[0], ast.Constant) and n.value.elts[0].value == '' for n in own_nodes(gdi.node))
     if not ({'date_value[:8]', 'date_value[8:]'} <= slices and fmtcat):
@@ -306,7 +320,7 @@ def run(chk):
     length_guard(chk, ix)
 
 
-TEXT_FORMS = ("'{0}'.format(%s)", "'{}'.format(%s)", 'str(%s)', "'%%s' %% %s", 'format(%s)', "'%%s' %% (%s,)", 'text_type(%s)')
+TEXT_FORMS = ("f'{%s}'", "'{0}'.format(%s)", "'{}'.format(%s)", 'str(%s)', "'%%s' %% %s", 'format(%s)', "'%%s' %% (%s,)", 'text_type(%s)')
 HL7_MAX = {'NM': 16, 'SI': 4}      # HL7 v2 chapter 2A (also stated in the class documentation)
 
 
